@@ -197,7 +197,9 @@ var injectors = []injector{
 		return bodySite(r, fs, sn[r.Intn(len(sn))])
 	}},
 	{"use-after-block", func(r *RNG, fs []srcFile) ([]srcFile, bool) {
-		return bodySite(r, fs, []string{"{if true}{let $zq: 1/}{$zq}{/if}{$zq}", "{let $zc}{let $zq: 1/}{$zq}{/let}{$zc}{$zq}", "{switch 1}{case 1}{let $zq: 1/}{$zq}{/switch}{$zq}"}[r.Intn(3)])
+		return bodySite(r, fs, []string{"{if true}{let $zq: 1/}{$zq}{/if}{$zq}", "{let $zc}{let $zq: 1/}{$zq}{/let}{$zc}{$zq}", "{switch 1}{case 1}{let $zq: 1/}{$zq}{/switch}{$zq}",
+			// the let is the ONLY thing in its block
+			"{log}{let $zq: 1/}{/log}{$zq}", "{let $zc}{let $zq: 1/}{/let}{$zc}{$zq}", "{msg desc=\"d\"}{let $zq: 1/}{/msg}{$zq}", "{if true}{let $zq: 1/}{/if}{$zq}", "{foreach $zi in [1]}{let $zq: $zi/}{/foreach}{$zq}"}[r.Intn(8)])
 	}},
 	{"use-before-definition", func(r *RNG, fs []srcFile) ([]srcFile, bool) {
 		return bodySite(r, fs, []string{"{$zq}{let $zq: 1/}{$zq}", "{let $zq: $zq/}{$zq}", "{let $zq}{$zq}{/let}{$zq}"}[r.Intn(3)])
@@ -284,7 +286,7 @@ var injectors = []injector{
 		return nil, false
 	}},
 	{"unused-let", func(r *RNG, fs []srcFile) ([]srcFile, bool) {
-		return bodySite(r, fs, []string{"{let $zq: 1/}", "{let $zq}x{/let}", "{if true}{let $zq: 1/}{/if}", "{let $zq: 1/}{foreach $zq in [1]}{$zq}{/foreach}"}[r.Intn(4)])
+		return bodySite(r, fs, []string{"{let $zq: 1/}", "{let $zq}x{/let}", "{if true}{let $zq: 1/}{/if}", "{let $zq: 1/}{foreach $zq in [1]}{$zq}{/foreach}", "{log}{let $zq: 1/}{/log}", "{let $zc}{let $zq: 1/}{/let}{$zc}", "{msg desc=\"d\"}{let $zq: 1/}{/msg}"}[r.Intn(7)])
 	}},
 	{"let-named-ij", func(r *RNG, fs []srcFile) ([]srcFile, bool) {
 		return bodySite(r, fs, []string{"{let $ij: 1/}{$ij}", "{let $ij}x{/let}{$ij}"}[r.Intn(2)])
